@@ -123,3 +123,31 @@ func (c *Ctx) isNewHelper(f *ssa.Function, depth int) bool {
 	}
 	return true
 }
+
+// borrow runs another property's rule set on the same program and adopts the
+// obligations of the rules named in rename (old rule id -> rule id under the
+// current property).  Used where one property's clause is decided by exactly
+// the construct another property already analyses.
+func (c *Ctx) borrow(f PropFunc, rename map[string]string) {
+	sub := core.NewResult(c.R.Prop, c.P)
+	f(&Ctx{P: c.P, R: sub, Tier: c.Tier})
+	c.R.PathsSeen += sub.PathsSeen
+	n := 0
+	for _, o := range sub.Obs {
+		to, ok := rename[o.Rule]
+		if !ok {
+			continue
+		}
+		o.Rule = to
+		c.R.Obs = append(c.R.Obs, o)
+		if o.Func != "" {
+			c.R.Analysed[o.Func] = true
+		}
+		n++
+	}
+	if n == 0 {
+		for _, to := range rename {
+			c.R.Fail(to, "", "borrowed-rule-produced-no-obligation", token.NoPos, "the rule this clause is shared with produced no obligation")
+		}
+	}
+}
